@@ -1041,7 +1041,8 @@ def ck15(p, res):
         srcs = [l for l in range(1, f.argc + 1) if "CKKSCiphertext" in f.local_ty(l).get("s", "")]
         if not srcs:
             continue
-        allocs = [(bi, t) for bi, t in f.calls() if (f.callee_def(t) or {}).get("n") in ("alloc", "alloc_from_infos") and "CKKSCiphertext" in (f.callee_def(t) or {}).get("p", "")]
+        allocs = [(bi, t) for bi, t in f.calls() if (f.callee_def(t) or {}).get("n") in ("alloc", "alloc_from_infos")
+                  and any(k in (f.callee_def(t) or {}).get("p", "") for k in ("CKKSCiphertext", "GLWE"))]
         if not allocs:
             continue            # forwarders
         n += 1
